@@ -146,8 +146,10 @@ class MemConn(Conn):
             self.ws._finish(1000)
 
     async def finish(self):
+        if not self.ws.closed:  # a case that ended early (violation) leaves connections open: close them like a client would
+            self.ws._finish(1000)
         with contextlib.suppress(BaseException):
-            await asyncio.wait_for(self.task, 5)
+            await asyncio.wait_for(self.task, 2)
 
 
 class RealConn(Conn):
@@ -184,7 +186,7 @@ class RealConn(Conn):
         with contextlib.suppress(BaseException):
             await self.ws.close()
         with contextlib.suppress(BaseException):
-            await asyncio.wait_for(self.task, 5)
+            await asyncio.wait_for(self.task, 2)
 
 
 class World:
@@ -217,7 +219,7 @@ class World:
         async def auto_release():
             while not stopping["done"]:
                 self.gate.release_one()
-                await asyncio.sleep(0 if self.transport == "mem" else 0.01)
+                await asyncio.sleep(0.002 if self.transport == "mem" else 0.01)
         releaser = asyncio.ensure_future(auto_release())
         try:
             for c in self.conns:
